@@ -16,7 +16,7 @@ namespace verif {
 enum Site {
   SCAN_TOKEN = 1,      // a = lexer stack depth, b = tokens so far
   MACRO_PASS = 2,      // a = pass index, b = stream length
-  MACRO_PASS_END = 3,  // a = passes allowed, b = changed flag
+  MACRO_PASS_END = 3,  // a = final stream length, b = changed flag
   MACRO_DETECT = 4,    // a = start index, b = stream length
   LR_ACTION = 5,       // a = state stack height
   LR_FIRST_ROUND = 6,
